@@ -11,6 +11,10 @@ Contracts (sidecar) on the real functions.  One generic step contract per operat
     every other row entry is zero (frame);
   * the class is Stream for one phase, MultiStream otherwise (where the statement fixes it);
   * phase views (`ms[p]`) are live both ways and share T and P, also after the parent's phases change;
+    a view asked for through a label whose exact row is absent (`ms['L']` on (g, l)) is the view of the
+    other-case row, every time it is asked for: before and after any change of the phase set, whether the
+    set is rebuilt (phases setter, accessors, reduce, restore) or grows in place (copy_like from a stream
+    with more phases), and it is the view of the exact row as soon as that row exists;
   * `set_data(get_data())` at any later time reproduces flows, phases, T, P and class.
 
 The groups enumerate sources (Stream of each phase / MultiStream over each phase subset, with
